@@ -390,6 +390,22 @@ Lemma c10_refuted_F48 :
         snd (fst (finish good)) = cancelled /\ snd (next_after_abandon good) = NNone /\ wire (fst (next_after_abandon good)) = [mkReq 7 [CPaged 1 []]; mkReq 7 [CPaged 1 [x01]]]
     | _, _ => False end end.
 Proof. vm_compute. repeat split. Qed.
+(* ---- F56: PagedResults::finish() itself ----
+   Whatever left a page's own result in the stream (the repairs F21, F24, F48 close the windows the built-in adapters can reach; an adapter
+   written by the user, sitting between PagedResults and the stream, can fail at the end of a page before PagedResults looks at it),
+   finish() hands out no result that still carries a live cookie: it is replaced by the cancellation. On the model's reachable states
+   this changes nothing ([res] never holds a live cookie there); the theorem is about EVERY state. *)
+Definition live (r : result) : bool := match find_paged (ctrls r) with Some (_ :: _) => true | _ => false end.
+Definition finish56 (s : stream) : stream * result * option nat :=
+  let '(s', r, sc) := finish s in (s', if live r then cancelled else r, sc).
+Theorem c10_finish_never_a_page_result s : cookie_of (snd (fst (finish56 s))) = [].
+Proof.
+  unfold finish56. destruct (finish s) as [[s' r] sc]. cbn [fst snd]. unfold live, cookie_of.
+  destruct (find_paged (ctrls r)) as [[|c0 ck]|] eqn:E; [now rewrite E|reflexivity|now rewrite E].
+Qed.
+Lemma c10_refuted_F56 : let s := mkS SError None (Some (mkRes 0 [CPaged 0 [x01]])) 7 [] 2 [] [] in
+  snd (fst (finish s)) = mkRes 0 [CPaged 0 [x01]] /\ snd (fst (finish56 s)) = cancelled.
+Proof. split; reflexivity. Qed.
 Print Assumptions c16.
 Print Assumptions c10_abandoned_switch.
 Print Assumptions c10_paged_early_finish.
